@@ -11,7 +11,9 @@ Record obs := mkObs {
   ob_accts : list acct;        (* one per address of the trace's universe, in order *)
   ob_allow : list Z;           (* allowance(owner, spender), row-major over the universe *)
   ob_idv : list iev;           (* what the identity verifier was asked during this call *)
-  ob_cmp : list cev            (* what the compliance contract was asked / told during this call *)
+  ob_cmp : list cev;           (* what the compliance contract was asked / told during this call *)
+  ob_cmp_set : bool;           (* does the compliance() getter answer (true) or trap (false) *)
+  ob_idv_set : bool            (* does the identity_verifier() getter answer or trap *)
 }.
 Record item := I { it_call : call; it_out : res ret; it_obs : obs }.
 Record ttrace := mkTT { t_hc : hostcfg; t_univ : list addr; t_items : list item }.
@@ -72,7 +74,8 @@ Definition perm_iev (l1 l2 : list iev) : bool :=
 Definition eqb_obs (x y : obs) : bool :=
   Bool.eqb (ob_paused x) (ob_paused y) && (ob_supply x =? ob_supply y)
   && eqb_list eqb_acct (ob_accts x) (ob_accts y) && eqb_list Z.eqb (ob_allow x) (ob_allow y)
-  && perm_iev (ob_idv x) (ob_idv y) && eqb_list eqb_cev (ob_cmp x) (ob_cmp y).
+  && perm_iev (ob_idv x) (ob_idv y) && eqb_list eqb_cev (ob_cmp x) (ob_cmp y)
+  && Bool.eqb (ob_cmp_set x) (ob_cmp_set y) && Bool.eqb (ob_idv_set x) (ob_idv_set y).
 
 (* ------------------------------------------------------------------ *)
 (* the model's observation                                              *)
@@ -83,7 +86,7 @@ Definition pairs (univ : list addr) : list (addr * addr) :=
 Definition observe (univ : list addr) (s : state) : obs :=
   mkObs (paused s) (supply s) (map (acct_of s) univ)
         (map (fun p => allowance s (fst p) (snd p)) (pairs univ))
-        (idv_log s) (cmp_log s).
+        (idv_log s) (cmp_log s) (cmp_set s) (idv_set s).
 
 (* diff: replay the calls through the model, compare outcome and observation at every call *)
 Fixpoint diff_from (hc : hostcfg) (univ : list addr) (s : state) (items : list item) (i : N) : N :=
@@ -238,6 +241,17 @@ Definition expected_notifs (lk : addr -> option acct) (c : call) (r : ret) : opt
 Definition paused_after (prev : obs) (c : call) : bool :=
   match c_op c with Pause _ => true | Unpause _ => false | _ => ob_paused prev end.
 
+(* the links to the collaborators: set by set_compliance / set_identity_verifier and by nothing
+   else, and never lost again (whatever time passes) *)
+Definition links_after (prev : obs) (c : call) (ok : bool) : bool * bool :=
+  match c_op c with
+  | SetCompliance _ => (if ok then true else ob_cmp_set prev, ob_idv_set prev)
+  | SetIdentityVerifier _ => (ob_cmp_set prev, if ok then true else ob_idv_set prev)
+  | _ => (ob_cmp_set prev, ob_idv_set prev)
+  end.
+Definition links_ok (prev cur : obs) (c : call) (ok : bool) : bool :=
+  Bool.eqb (ob_cmp_set cur) (fst (links_after prev c ok)) && Bool.eqb (ob_idv_set cur) (snd (links_after prev c ok)).
+
 Definition mon_step (univ : list addr) (prev : obs) (it : item) : bool :=
   let cur := it_obs it in
   let P := combine univ (ob_accts prev) in
@@ -247,6 +261,7 @@ Definition mon_step (univ : list addr) (prev : obs) (it : item) : bool :=
   let la' := fun o sp => look2 o sp (combine (pairs univ) (ob_allow cur)) in
   (length (ob_accts cur) =? length univ)%nat
   && inv_ok cur
+  && links_ok prev cur (it_call it) (is_ok (it_out it))
   && match it_out it with
      | Fail =>
          (* a failing call leaves no trace: same accounts, same pause flag, nobody was told anything *)
@@ -271,7 +286,7 @@ Fixpoint mon_from (univ : list addr) (prev : obs) (items : list item) (i : N) : 
 
 (* a fresh token: nothing minted, nothing frozen, not paused *)
 Definition obs0 (univ : list addr) : obs :=
-  mkObs false 0 (map (fun _ => (0, 0, false)) univ) (map (fun _ => 0) (pairs univ)) [] [].
+  mkObs false 0 (map (fun _ => (0, 0, false)) univ) (map (fun _ => 0) (pairs univ)) [] [] false false.
 
 Definition check_token (t : ttrace) : verdict :=
   (diff_from (t_hc t) (t_univ t) init (t_items t) 0%N,
